@@ -63,7 +63,12 @@ pub trait FindProgramAddress: HasSeeds + HasOwnerProgram {
     fn create_program_address(seeds: &Self::Seeds, bump: u8) -> Result<Pubkey> {
         let mut seeds = seeds.seeds();
         let bump = &[bump];
-        seeds.push(bump);
+        // Same rule as the on-chain `SeedsWithBump::seeds_with_bump`: the bump replaces the trailing
+        // empty seed (which would otherwise count toward the 16 seed limit), and is pushed only if there is none.
+        match seeds.last_mut() {
+            Some(last) if last.is_empty() => *last = bump,
+            _ => seeds.push(bump),
+        }
         Ok(Pubkey::create_program_address(
             &seeds,
             &Self::OwnerProgram::ID,
